@@ -29,7 +29,8 @@ Check(o) ==
   ELSE IF BadInput(o) THEN (IF o.ret = "err" THEN {} ELSE {"reversed_or_empty_interval_or_negative_tolerance_gives_err"})
   ELSE (IF o.ret = "budget" THEN {"terminates_within_budget"} ELSE {})
        \cup (IF o.ret = "err" /\ Claimed(o) /\ o.mustok THEN {"returns_ok_on_reliable_class"} ELSE {})
-       \cup (IF o.ret = "ok" /\ Claimed(o) /\ ~FLe(CAbs(CSub(o.val, Exact(o))), FMul(Bound(o), IF o.routine = "romberg" THEN F1 ELSE Scale(o)))
+       \* absolute bound KQ * tol, plus the rounding of summing the rule (4096 eps relative to the integral's size)
+       \cup (IF o.ret = "ok" /\ Claimed(o) /\ ~FLe(CAbs(CSub(o.val, Exact(o))), FAdd(Bound(o), FMul(FMul(FOfInt(4096), FEps), Scale(o))))
                THEN {"result_within_tolerance_of_true_integral"} ELSE {})
        \cup (IF HasInterval(o.routine) /\ o.calls > 0 /\ (FLt(o.xmin, o.a) \/ FGt(o.xmax, o.b)) THEN {"integrand_sampled_inside_the_interval"} ELSE {})
        \cup (IF o.routine = "simpson" /\ o.ret = "ok" /\ o.work /\ o.calls > 2 * RefSimpsonEvals(o) + 8
